@@ -8,7 +8,8 @@ RULE = ("seeded sequences of 4-30 tree-building operations (make root / node, ad
         "operation the whole forest is snapshotted (per node: root, treepath, children, metadata identity) and compared with the "
         "Lean heap model, and the well-formedness predicate is evaluated directly; non-trivial = sequence moving a branch with "
         "descendants; node names derived from other nodes' names (proper prefixes), nodes of every built-in class incl. EMPTY "
-        "PointLists (falsy objects), option strings and names rebuilt at run time; distinct by recipe hash")
+        "PointLists (falsy objects), option strings and names rebuilt at run time, every operation reached through its method "
+        "or through one of the spellings of the dispatcher .tree(...); a legal move that is refused is a violation; distinct by recipe hash")
 OPTS = [True, False, "copy", "overwrite", "copyover"]
 
 
